@@ -31,7 +31,7 @@ let rest_2 := fun _ : unit =>
 (let next_8 := fun _ : unit =>
 (self, inner, VStuck) in
 (let body_9 := fun _ : unit =>
-(self, inner, (VC "Err" [VC "FrameUnexpected" []])) in
+(self, inner, (VC "Err" [VC "Error::FrameUnexpected" []])) in
 match scrut_3 with
 | VC c_ args_ =>
   if (c_ =? "HandshakeState::ServerClosing")%string then
@@ -143,7 +143,7 @@ match v_43 with
 | VC c_ args_ =>
   if (c_ =? "Ok")%string then
     match args_ with
-    | [a_46] => (self, inner, (VC "Err" [VC "SaslSecureNotSupported" []]))
+    | [a_46] => (self, inner, (VC "Err" [VC "Error::SaslSecureNotSupported" []]))
     | _ => rest_44 tt
     end
   else rest_44 tt
